@@ -430,6 +430,9 @@ func (x *Exec) merge(g *Term, a, b Value) Value {
 	case *PtrV, *PtrSetV:
 		return x.mergePtr(g, a, b)
 	case *SliceV:
+		if bg, ok := b.(*SliceGV); ok {
+			return &SliceGV{G: g, A: av, B: bg}
+		}
 		bv := b.(*SliceV)
 		if av.Base == nil && bv.Base == nil {
 			return av
@@ -451,10 +454,12 @@ func (x *Exec) merge(g *Term, a, b Value) Value {
 		case samePtr(av.Base, bv.Base):
 			base = av.Base
 		default:
-			x.fail("merge: slices with different backing arrays (%s vs %s)", ptrStr(av.Base), ptrStr(bv.Base))
+			return &SliceGV{G: g, A: av, B: bv}
 		}
 		// a nil slice merged with a non-nil one keeps len 0 on the nil side; nil-ness itself is lost
 		return &SliceV{Base: base, Off: x.c.Ite(g, a2.Off, b2.Off), Len: x.c.Ite(g, a2.Len, b2.Len), Cap: x.c.Ite(g, a2.Cap, b2.Cap)}
+	case *SliceGV:
+		return &SliceGV{G: g, A: a, B: b}
 	case *StrV:
 		bv := b.(*StrV)
 		if av.Known && bv.Known && av.S == bv.S {
@@ -509,6 +514,30 @@ func (x *Exec) merge(g *Term, a, b Value) Value {
 	}
 	x.fail("merge: unsupported %T", a)
 	return nil
+}
+
+// SliceGV is a guarded choice between two slices with different backing arrays.
+type SliceGV struct {
+	G    *Term
+	A, B Value // *SliceV or *SliceGV
+}
+
+// sliceAlts flattens a slice value into guarded plain slices.
+func (x *Exec) sliceAlts(v Value, g *Term, out *[]sliceAlt) {
+	switch t := v.(type) {
+	case *SliceV:
+		*out = append(*out, sliceAlt{g, t})
+	case *SliceGV:
+		x.sliceAlts(t.A, x.c.And(g, t.G), out)
+		x.sliceAlts(t.B, x.c.And(g, x.c.Not(t.G)), out)
+	default:
+		x.fail("sliceAlts: %T", v)
+	}
+}
+
+type sliceAlt struct {
+	g *Term
+	s *SliceV
 }
 
 // IfaceGV is a guarded choice between two interface values (e.g. error nil / non-nil).
